@@ -497,12 +497,14 @@ class WiredNetworkInterface(NetworkInterface, ABC):
         """
         if not self.enabled:
             return False
+        # stamp the frame first: the timestamp is part of the serialised frame, so it must be included in the size
+        # that is checked against the remaining capacity of the link
+        frame.set_sent_timestamp()
         if not self._connected_link.can_transmit_frame(frame):
             # Drop frame for now. Queuing will happen here (probably) if it's done in the future.
             self._connected_node.sys_log.info(f"{self}: Frame dropped as Link is at capacity")
             return False
         super().send_frame(frame)
-        frame.set_sent_timestamp()
         self.pcap.capture_outbound(frame)
         self._connected_link.transmit_frame(sender_nic=self, frame=frame)
         return True
@@ -764,15 +766,18 @@ class Link(SimComponent):
             receiver = self.endpoint_b
         frame_size = frame.size_Mbits
 
+        # Load the frame size on the link before delivering it, so that anything the receiver sends back over this
+        # link while it is still processing the frame is admitted against a load that already includes the frame
+        self.current_load += frame_size
         if receiver.receive_frame(frame):
             # Frame transmitted successfully
-            # Load the frame size on the link
-            self.current_load += frame_size
             _LOGGER.debug(
                 f"Added {frame_size:.3f} Mbits to {self}, current load {self.current_load:.3f} Mbits "
                 f"({self.current_load_percent})"
             )
             return True
+        # the frame was not accepted by the receiving interface: it does not count towards the load
+        self.current_load = max(self.current_load - frame_size, 0.0)
         return False
 
     def __str__(self) -> str:
